@@ -155,15 +155,9 @@ Merge(old, upd) == [c \in Cells |-> IF upd[c] # None THEN upd[c] ELSE old[c]]
 \* Enabling condition for the model bound (checked by the caller, never truncated here):
 SuggestWithinBound(st, s, env) == MaxTrialId(st, s) + Len(env.ps) <= MaxId
 
-SuggestTrials(st, s, w, n, env) ==
-  IF StudyGuard(st, s) # None THEN Err(st, StudyGuard(st, s))
-  ELSE
+SuggestFresh(st, s, w, n, env) ==
   LET ops == st.ops[s][w]
-      unfinished == {i \in DOMAIN ops : ~ops[i].done}
-  IN IF unfinished # {} THEN
-       \* "If there is already an active (not done) operation, simply return that."
-       LET i == MinOf(unfinished) IN Ok(st, [num |-> i, op |-> ops[i]])
-  ELSE
+  IN
   LET own  == {t \in IdsOf(st, s) : st.trial[s][t].state = "ACTIVE" /\ st.trial[s][t].client = w}
       pool == {t \in IdsOf(st, s) : st.trial[s][t].state = "REQUESTED"}
       finish(st2, ids, err) ==
@@ -196,6 +190,14 @@ SuggestTrials(st, s, w, n, env) ==
                        ELSE IF t \in (base + useN + 1)..(base + k) THEN NewTrial("REQUESTED", None, reqP(t - base - useN), None)
                        ELSE st1m.trial[s][t]]]
         IN finish(st2, SeqOf(have \cup ((base + 1)..(base + useN))), FALSE)
+
+SuggestTrials(st, s, w, n, env) ==
+  IF StudyGuard(st, s) # None THEN Err(st, StudyGuard(st, s))
+  ELSE
+  \* An operation of this client that is still unfinished was abandoned (SuggestTrials runs to completion under the
+  \* operation lock; only a dead server leaves one behind): it is closed with an error and a new operation starts.
+  LET st0 == [st EXCEPT !.ops[s][w] = [i \in DOMAIN @ |-> IF @[i].done THEN @[i] ELSE [@[i] EXCEPT !.done = TRUE, !.err = TRUE]]]
+  IN SuggestFresh(st0, s, w, n, env)
 
 GetOperation(st, s, w, i) ==
   IF StudyPresent(st, s) /\ i \in DOMAIN st.ops[s][w] THEN Ok(st, st.ops[s][w][i]) ELSE Err(st, "NotFound")
